@@ -949,7 +949,7 @@ func (j *judgeRun) explain(query, actual, want string, pred func(*sim) string, w
 			return
 		}
 	}
-	j.add(query, "unexplained:"+query, "%s returned %s, a scan of the live documents gives %s", what, actual, want)
+	j.add(query, "unexplained:"+query+":after-"+j.c.Ops[j.step].Op, "%s returned %s, a scan of the live documents gives %s", what, actual, want)
 }
 
 // probeTerms: for each field every term some document of the case carries at that field
@@ -1550,6 +1550,11 @@ func judge(c Case, driver string) ([]finding, caseInfo) {
 // ---------------------------------------------------------------------------------
 // reporting
 
+var (
+	surveyMu sync.Mutex
+	surveyed = map[string]bool{}
+)
+
 // tierDrivers: quick = Badger; thorough = Badger, the reference ordered map, and the
 // other three embedded drivers.
 func tierDrivers() []string {
@@ -1583,6 +1588,7 @@ func runCase(t pbt.TB, c Case) {
 		drivers = []string{c.Driver}
 	}
 	var ref map[string]bool
+	refSteps := 0
 	for di, drv := range drivers {
 		fs, info := judge(c, drv)
 		if info.harness != "" {
@@ -1598,27 +1604,61 @@ func runCase(t pbt.TB, c Case) {
 			if info.nontrivial {
 				pbt.Nontrivial(t, caseKey(c))
 			}
-			pbt.Class(t, fmt.Sprintf("steps-judged:%02d-%02d", info.steps/5*5, info.steps/5*5+4))
+			bucket := "50+"
+			for _, b := range [][2]int{{0, 4}, {5, 9}, {10, 19}, {20, 49}} {
+				if info.steps >= b[0] && info.steps <= b[1] {
+					bucket = fmt.Sprintf("%02d-%02d", b[0], b[1])
+				}
+			}
+			pbt.Class(t, "steps-judged:"+bucket)
 		}
 		if len(fs) == 0 {
 			continue
 		}
-		if drv != "badger" && drv != "mem" && ref == nil {
+		other := drv != "badger" && drv != "mem"
+		if other && ref == nil {
 			ref = map[string]bool{}
-			rfs, _ := judge(c, "mem")
+			rfs, rinfo := judge(c, "mem")
 			for _, f := range rfs {
 				ref[f.key()] = true
 			}
+			refSteps = rinfo.steps
 		}
 		cc := c
 		cc.Driver = drv
 		for _, f := range fs {
 			sig := f.Sig
-			if drv != "badger" && drv != "mem" && !ref[f.key()] {
-				sig = drv + ":" + sig
+			// driver-specific: the reference map, judged up to this step, does not show it.
+			// Where the reference run ended earlier (an index defect that this driver happens
+			// to mask ended it), the finding keeps its plain signature only if it is one the
+			// defect simulators explain or one already listed for the index itself.
+			if other && !ref[f.key()] {
+				comparable := refSteps > f.Step
+				if comparable || !(explainedBySim[sig] || pbt.IsOpen(sig)) {
+					sig = drv + ":" + sig
+				}
 			}
 			pbt.Class(t, "finding:"+sig)
+			if os.Getenv("C09_SURVEY") != "" && !pbt.IsOpen(sig) {
+				// development aid: list every unlisted signature once instead of stopping at the first
+				surveyMu.Lock()
+				first := !surveyed[sig]
+				surveyed[sig] = true
+				surveyMu.Unlock()
+				if first {
+					fmt.Printf("SURVEY sig=%s [%s] %s\n  history: %s\n", sig, drv, f.Msg, c.Text)
+				}
+				continue
+			}
 			pbt.Discrepancy(t, cc, sig, "[%s] %s\n  history: %s", drv, f.Msg, c.Text)
 		}
 	}
 }
+
+var explainedBySim = func() map[string]bool {
+	m := map[string]bool{}
+	for _, s := range bugSig {
+		m[s] = true
+	}
+	return m
+}()
